@@ -667,6 +667,15 @@ pub fn check(a: &RunArgs) -> i32 {
         f.write_all(b"\n").unwrap();
         println!("evidence written to {}", p.display());
     }
+    // no verdict when the code under test fails (panics) on a large part of the workload: the
+    // property cannot be said to have held on scenarios that could not be evaluated
+    if exit == 0 && o.unevaluable * 20 > o.scenarios {
+        eprintln!(
+            "harness error: {} of {} scenarios could not be evaluated because the code under test panics on them (a totality matter, not decided here); no verdict on {}",
+            o.unevaluable, o.scenarios, a.prop
+        );
+        return 2;
+    }
     if exit == 0 && !diverged.is_empty() {
         eprintln!("harness error: {} of {} re-executed scenarios produced a different event log (first: {:?}); the simulation is not deterministic on this tree", diverged.len(), recheck_n, &diverged[..diverged.len().min(5)]);
         return 2;
